@@ -10,7 +10,9 @@ fn usage() -> ! {
 
 fn main() {
     let args: Vec<String> = std::env::args().collect();
-    mc::drive::quiet_panics();
+    if std::env::var_os("MC_LOUD").is_none() {
+        mc::drive::quiet_panics();
+    }
     match args.get(1).map(|s| s.as_str()) {
         Some("run") => {
             let prop = args.get(2).cloned().unwrap_or_else(|| usage());
